@@ -279,6 +279,34 @@ fn fetcher_rounds<const K: usize>() {
     kani::cover!(true);
 }
 
+/// A result can arrive for a node *after* it was made ready (its session dropped): two nodes are
+/// taken and made ready, the first one fails before it is fetched.  `next_fetch` must never hand
+/// out a node that already has a result (nor the local node).
+#[kani::proof]
+#[kani::unwind(7)]
+fn c25_fetcher_result_before_fetch() {
+    let Some((mut f, mut m)) = any_fetcher() else { return };
+    let Some(n0) = f.next_node() else { return };
+    let Some(n1) = f.next_node() else { return };
+    // (a duplicate candidate can be handed out twice before it has a result; the property only
+    // speaks about nodes that already have one)
+    kani::assume(n0 != n1);
+    f.ready_to_fetch(n0, Address);
+    f.ready_to_fetch(n1, Address);
+    f.fetch_failed(n0, "");
+    m.done |= bit(n0);
+    let mut i = 0;
+    while i < 2 {
+        if let Some((x, _)) = f.next_fetch() {
+            assert!(bit(x) & m.done == 0, "C25: the fetcher handed out a node that already has a result");
+            assert!(bit(x) != m.local, "C25: the fetcher handed out the local node");
+            kani::cover!(x == n1);
+        }
+        i += 1;
+    }
+    std::mem::forget(f);
+}
+
 #[kani::proof]
 #[kani::unwind(7)]
 fn c25_fetcher_one_round() {
